@@ -17,8 +17,8 @@ func registerC16() {
 	lib.Register(&lib.Check{
 		ID:    "C16",
 		Level: "exploration",
-		Rule: "PRNG streams rich in unknown messages, unknown fields of known messages and developer fields, in four variants (intact, truncated at a PRNG offset, file CRC " +
-			"corrupted, data record on an undefined local type); each decoded under all 8 combinations of {logger, unknown fields, unknown messages} through a counting reader " +
+		Rule: "PRNG streams rich in unknown messages, unknown fields of known messages and developer fields, in five variants (intact, truncated at a PRNG offset, file CRC " +
+			"corrupted, data record on an undefined local type, a file type without container after a file_id with unlisted fields); each decoded under all 8 combinations of {logger, unknown fields, unknown messages} through a counting reader " +
 			"and a logger that formats every argument; decoded content, error text and bytes consumed must be identical across the 8 runs, the lists absent when their option is " +
 			"off, sorted, and equal to the model's counts (failing streams: at least the completed records, at most completed + the record in flight); family chains: 2-3 such streams concatenated and decoded by DecodeChained under the 8 option sets: every File of the chain must carry exactly its own file's lists; non-trivial: the model " +
 			"expects at least one unknown message and one unknown field; distinct by stream digest",
@@ -68,7 +68,12 @@ func contentKey(ct *lib.Content) string {
 func c16Case(c *lib.Ctx, idx uint64) {
 	rng := lib.NewRand("C16.streams", idx)
 	ft := lib.FileTypes[idx%uint64(len(lib.FileTypes))].Type
-	variant := idx / uint64(len(lib.FileTypes)) % 4
+	variant := idx / uint64(len(lib.FileTypes)) % 5
+	if variant == 4 {
+		// a file type the library rejects, after a file_id record that carries unlisted fields:
+		// the file_id record is complete, so its unknown fields must be reported with the error
+		ft = []byte{0xFF, 0xF7, 0xFE, 100, 0, 8, 40, 200}[idx/85%8]
+	}
 	o := lib.GenOpts{
 		FileType:  ft,
 		Records:   8 + rng.Intn(40),
@@ -83,6 +88,7 @@ func c16Case(c *lib.Ctx, idx uint64) {
 		Compressed:    30,
 		NoTimeZero:    true,
 		ZeroFieldDefs: 3,
+		RedefSimilar:  30,
 		ForceFields: func(r *lib.Rand, g uint16) []byte {
 			if r.Chance(1, 2) {
 				return []byte{253}
@@ -92,6 +98,11 @@ func c16Case(c *lib.Ctx, idx uint64) {
 	}
 	if variant == 3 {
 		o.UndefinedLocal = 40
+	}
+	if variant == 4 {
+		o.Unknown = 100
+		o.Records = 1 + rng.Intn(4)
+		o.Mesgs = []uint16{49, 20, 23}
 	}
 	if rng.Chance(1, 2) {
 		o.Mesgs = lib.HostedMesgs(ft)
@@ -131,6 +142,11 @@ func c16Case(c *lib.Ctx, idx uint64) {
 		if exAll.FailAt < complete {
 			complete = exAll.FailAt
 		}
+	}
+	if variant == 4 {
+		// Decode stops after the leading file_id (the type has no container)
+		expectErr = true
+		complete = 2
 	}
 	lower, upper := exAll.Content, exAll.Content
 	if expectErr && variant != 2 {
